@@ -171,7 +171,10 @@ impl C08 {
         // backing with holes
         let mut backing_model = BTreeMap::new();
         let backing_rc = if with_backing {
-            let mut b = backing::Memory::new(endian.clone());
+            // the backing's own byte order is irrelevant to the paged memory (it is read byte by byte):
+            // one in three backings is built with the opposite order
+            let backing_endian = if rng.chance(1, 3) { if big { Endian::Little } else { Endian::Big } } else { endian.clone() };
+            let mut b = backing::Memory::new(backing_endian);
             let regions: [(u64, u64, u32); 3] = [(base + 0x3e0, 0x28, 5), (base + 0x40c, 0x20, 3), (base + 0x7f8, 0x10, 1)];
             for (i, (a, l, p)) in regions.iter().enumerate() {
                 let data: Vec<u8> = (0..*l).map(|k| (0x40 + i as u64 * 0x30 + k) as u8).collect();
